@@ -22,8 +22,12 @@ type c09Case struct {
 	Choices  []int  `json:"choices"`
 }
 
-func c09Req(id, transport, src, ruriHost string) []byte {
-	return MsgSpec{Method: "OPTIONS", RURI: "sip:bob@svc.example.com", Vias: []string{"SIP/2.0/" + transport + " " + src + ";branch=z9hG4bK" + id}, From: "<sip:" + id + "@ua.example.net>;tag=f", To: "<sip:bob@svc.example.com>",
+func c09Req(id, transport, src, route string) []byte {
+	var routes []string
+	if route != "" {
+		routes = []string{route}
+	}
+	return MsgSpec{Method: "OPTIONS", RURI: "sip:bob@svc.example.com", Routes: routes, Vias: []string{"SIP/2.0/" + transport + " " + src + ";branch=z9hG4bK" + id}, From: "<sip:" + id + "@ua.example.net>;tag=f", To: "<sip:bob@svc.example.com>",
 		CallID: "c09-" + id, CSeq: "1 OPTIONS"}.Build().Render()
 }
 
@@ -42,7 +46,15 @@ func c09Exec(scenario string, prefix []int) c09Result {
 	cfg := RCfg{Name: "svc.example.com", Listens: []RListen{
 		{Addr: "127.0.0.1", UDP: 5060, TCP: 5062, Backends: []string{be1, "tcp://127.0.1.2:7000"}},
 		{Addr: "127.0.0.2", UDP: 5060, TCP: 5062, Backends: []string{"udp://127.0.1.3:7000", "tcp://127.0.1.4:7000"}}}}
-	preStart = func() { vnet.SetHost("be1.example.net", false, "127.0.11.1") }
+	preStart = func() {
+		vnet.SetHost("be1.example.net", false, "127.0.11.1")
+		if scenario == "shrink" {
+			vnet.SetHost("be1.example.net", false, "127.0.11.1", "127.0.11.2")
+		}
+		// next hops named in Route headers; resolved through the simulated DNS
+		vnet.SetHost("nh1.example.net", false, "127.0.0.31")
+		vnet.SetHost("nh2.example.net", false, "127.0.0.32")
+	}
 	s := StartSim(ConfigYAML(cfg), SimOpts{}) // set-up on the default schedule
 	preStart = nil
 	defer s.Close()
@@ -59,6 +71,8 @@ func c09Exec(scenario string, prefix []int) c09Result {
 		c09TCPBackend("127.0.11.1:7000")
 		c09TCPBackend("127.0.11.2:7000")
 	}
+	s.UDPPeer("127.0.0.31:7100")
+	s.UDPPeer("127.0.0.32:7100")
 	uaA := s.UDPPeer("127.0.0.9:5060")
 	uaC := s.UDPPeer("127.0.0.7:5060")
 	cliB, err := s.TCPDial("127.0.0.8:0", "127.0.0.2:5062")
@@ -76,11 +90,25 @@ func c09Exec(scenario string, prefix []int) c09Result {
 		uaC.Send("127.0.0.1:5060", c09Req("C", "UDP", "127.0.0.7:5060", ""))
 		uaA.Send("127.0.0.1:5060", c09Req("D", "UDP", "127.0.0.9:5060", ""))
 	}
+	if scenario == "shrink" {
+		// three dispatches on listener 1 walk its whole rotation while one of the three backends disappears
+		uaC.Send("127.0.0.1:5060", c09Req("C", "UDP", "127.0.0.7:5060", ""))
+		uaA.Send("127.0.0.1:5060", c09Req("D", "UDP", "127.0.0.9:5060", ""))
+	}
+	if scenario == "named-hops" {
+		// requests routed to next hops given by host name: both loops resolve names while relaying
+		uaA.Send("127.0.0.1:5060", c09Req("D", "UDP", "127.0.0.9:5060", "<sip:nh1.example.net:7100;lr>"))
+		uaC.Send("127.0.0.2:5060", c09Req("C", "UDP", "127.0.0.7:5060", "<sip:nh2.example.net:7100;lr>"))
+	}
 	if scenario == "three-clients" {
 		// same Via host as client A, through the other listener: both loops learn the same key
 		uaC.Send("127.0.0.2:5060", c09Req("C", "UDP", "127.0.0.9:5060", ""))
 	}
-	vnet.SetHost("be1.example.net", false, "127.0.11.2")
+	if scenario == "shrink" {
+		vnet.SetHost("be1.example.net", false, "127.0.11.1")
+	} else {
+		vnet.SetHost("be1.example.net", false, "127.0.11.2")
+	}
 	s.W.Advance(2e9) // the periodic resolver wakes up: remove 127.0.11.1, add 127.0.11.2 through the real callback path
 	s.Run()
 	res := c09Result{trace: s.W.TraceCopy()}
@@ -116,10 +144,15 @@ func c09Exec(scenario string, prefix []int) c09Result {
 	if scenario == "three-clients" {
 		ids = append(ids, "C")
 	}
-	if scenario == "tcp-backend-churn" {
+	if scenario == "tcp-backend-churn" || scenario == "shrink" {
 		own["C"], own["D"] = own["A"], own["A"]
 		ids = append(ids, "C", "D")
 	}
+	if scenario == "named-hops" {
+		own["C"], own["D"] = []string{"127.0.0.32:7100"}, []string{"127.0.0.31:7100"}
+		ids = append(ids, "C", "D")
+	}
+	churn := scenario == "tcp-backend-churn" || scenario == "shrink"
 	var oc []string
 	for _, id := range ids {
 		to := reqTo[id]
@@ -129,7 +162,7 @@ func c09Exec(scenario string, prefix []int) c09Result {
 		}
 		if len(to) == 0 {
 			// allowed only for the listener whose backend set changes (the removal may overlap the dispatch)
-			if id != "A" && !(scenario == "tcp-backend-churn" && id != "B") {
+			if id != "A" && !(churn && id != "B") {
 				res.clause, res.detail = "request-lost", fmt.Sprintf("request %s reached no backend although its listener's backends did not change", id)
 				return res
 			}
@@ -147,13 +180,16 @@ func c09Exec(scenario string, prefix []int) c09Result {
 			return res
 		}
 		oc = append(oc, id+":"+to[0])
+		if scenario == "named-hops" && (id == "C" || id == "D") {
+			continue // the named next hops are sinks
+		}
 		// the response returns to the sender
-		want := map[string]string{"A": "udp>127.0.0.9:5060", "C": "udp>127.0.0.7:5060"}[id]
+		want := map[string]string{"A": "udp>127.0.0.9:5060", "C": "udp>127.0.0.7:5060", "D": "udp>127.0.0.9:5060"}[id]
 		got := respTo[id]
 		if id == "B" {
 			want = fmt.Sprintf("tcp>%s#%d", cliB.LocalString(), cliB.Peer().ID())
 		}
-		if scenario == "tcp-backend-churn" && id != "B" {
+		if churn && id != "B" {
 			// answers of a backend that is being replaced, and answers over its fresh connection, are don't-cares here
 			continue
 		}
@@ -181,9 +217,9 @@ func c09RaceRun(c *Ctx) {
 		scenario string
 		bound    int
 	}
-	plans := []plan{{"two-clients", 2}, {"tcp-backend-churn", 1}}
+	plans := []plan{{"two-clients", 2}, {"tcp-backend-churn", 1}, {"shrink", 1}, {"named-hops", 1}}
 	if c.Thorough() {
-		plans = []plan{{"two-clients", 3}, {"three-clients", 3}, {"tcp-backend-churn", 2}}
+		plans = []plan{{"two-clients", 3}, {"three-clients", 3}, {"tcp-backend-churn", 2}, {"shrink", 2}, {"named-hops", 2}}
 	}
 	if v := os_Getenv("VERIF_C09_BOUND"); v != "" {
 		var b int
@@ -228,7 +264,7 @@ var _ = net.IPv4zero
 
 func init() {
 	addCheck(&Check{ID: "C09", Level: "model_checking", Race: true,
-		Rule:    "stateless depth-first search over schedules with deviation bounding (every non-default choice of the next goroutine or the firing select case costs one deviation) of the REAL proxy built with -race: two listens entries of one service (each UDP+TCP listener, each with its own UDP and TCP backend; one backend by host name), a UDP client on listener 1 and a TCP client on listener 2 (thorough: plus a UDP client on listener 2 announcing the same Via host), reactive backend doubles answering every request, and a membership change (remove + add) through the real resolver callback path, all injected without waiting; scenarios two-clients (<=2 deviations, thorough <=3), three-clients (thorough <=2), tcp-backend-churn (host-name TCP backend connected, removed and replaced while three requests are dispatched; <=1, thorough <=2); every execution is checked by the oracle on the packet log AND by the Go race detector, whose hand-off-blind view is obtained by a norace spin scheduler; states = executions, transitions = choice points visited; non-trivial = execution with at least one deviation",
+		Rule:    "stateless depth-first search over schedules with deviation bounding (every non-default choice of the next goroutine or the firing select case costs one deviation) of the REAL proxy built with -race: two listens entries of one service (each UDP+TCP listener, each with its own UDP and TCP backend; one backend by host name), a UDP client on listener 1 and a TCP client on listener 2 (thorough: plus a UDP client on listener 2 announcing the same Via host), reactive backend doubles answering every request, and a membership change (remove + add) through the real resolver callback path, all injected without waiting; scenarios two-clients (<=2 deviations, thorough <=3), three-clients (thorough <=2), tcp-backend-churn (host-name TCP backend connected, removed and replaced while three requests are dispatched; <=1, thorough <=2), shrink (a host name resolving to two of listener 1's three backends loses one address while three requests walk the rotation; <=1, thorough <=2), named-hops (requests on both listeners carry Route headers naming next hops by host name, resolved through the simulated DNS, while the membership changes; <=1, thorough <=2); every execution is checked by the oracle on the packet log AND by the Go race detector, whose hand-off-blind view is obtained by a norace spin scheduler; states = executions, transitions = choice points visited; non-trivial = execution with at least one deviation",
 		Assume:  []string{"scheduling points are synchronisation operations, select, socket reads; unsynchronised accesses are reported by the race detector on every explored execution", "socket operations carry exactly the happens-before edges the Go runtime gives them on unix (per-descriptor ordering; global ioSync word for stream read/write; none for datagrams)", "a request whose chosen backend is removed concurrently may be lost (the statement's 'registered at that moment')"},
 		Run:     func(c *Ctx) {},
 		RaceRun: c09RaceRun,
